@@ -1084,6 +1084,9 @@ def run_history(case, rng=None, trace=None):
                     obs = {"tolist": to_cids(tl[1], st.pl, shp) if tl[0] == "ok" else "raise",
                            "gnt": to_cids(gn[1], st.pl, shp, True) if gn[0] == "ok" else "raise",
                            "want": expected_flat(st), "shape": list(st.pos.shape)}
+                    if op[0] == "to_dict":
+                        dd = call(lambda: st.td.to_dict())
+                        obs["to_dict"] = (to_cids(dd[1].get("s"), st.pl, shp, True) if dd[0] == "ok" and isinstance(dd[1], dict) else "raise")
                 trace.append({"step": i - 1, "op": op, "before": rb[1] if rb[0] == "ok" else None,
                               "after": ra[1] if ra[0] == "ok" else None, "status": status, "bs_before": bs_before,
                               "container": cont, "container_after": type(st.td).__name__, "aux": dict(st.aux),
@@ -1272,6 +1275,8 @@ def main(R):
             R.oracle_fail(f["label"], c, f["detail"], f["sig"])
     if ok:
         check_model(R, all_traces)
+    if R.extra.get("spec_mismatch"):
+        raise RuntimeError(f"{R.extra['spec_mismatch']} SPEC-MISMATCH lines (machinery bug: Spec/C16_ObjArray disagrees with torch)")
 
 
 def model_res(m):
@@ -1367,12 +1372,34 @@ def in_region_static(t):
     return r
 
 
+def spec_lines_for(t):
+    """the spec's position map of an index against torch's, on the proxy shape (validation of Spec/C16_ObjArray)"""
+    op = t["op"]
+    if op[0] not in ("index", "setitem", "set_at", "setitem_same") or t["status"] == "invalid":
+        return []
+    bs = t["bs_before"]
+    descs = expand_ellipsis(op[1], len(bs))
+    if not descs or 0 in bs:
+        return []
+    n = int(np.prod(bs)) if bs else 1
+    src = torch.arange(n, dtype=torch.int64).reshape(bs)
+    want = call(lambda: src[py_index(op[1], op[2])])
+    if want[0] != "ok":
+        return []
+    return [("spec", sx([Sym("src-all"), idx_sx(descs), list(bs)]), [list(want[1].shape), want[1].reshape(-1).tolist(), list(bs)], "spec")]
+
+
 def check_model(R, all_traces):
     items = []
+    seen_spec = set()
     for case, tr in all_traces:
         for t in tr:
             for (label, line, want, kind) in model_lines_for(t, case):
                 items.append((label, line, want, kind, case, t))
+            for it in spec_lines_for(t):
+                if it[1] not in seen_spec:
+                    seen_spec.add(it[1])
+                    items.append(it + (case, t))
     if not items:
         return
     res = R.model([it[1] for it in items], shards=8 if not R.quick else 4)
@@ -1381,6 +1408,19 @@ def check_model(R, all_traces):
         status, val = model_res(m)
         c = {"op": t["op"], "step": t["step"], "entry_before": t["before"], "line": line[:2000],
              "case": {k: case[k] for k in ("pseed", "bs", "assign", "plan")}, "ops": case["ops"][: t["step"] + 1]}
+        if kind == "spec":
+            shape, flat, bs = want
+            ok_ = isinstance(m, list) and m and m[0] == "some"
+            got_shape = m[1][0] if ok_ else None
+            got_flat = None
+            if ok_:
+                got_flat = [int(np.ravel_multi_index(tuple(x[1]), bs)) if (isinstance(x, list) and x and x[0] == "some" and bs) else
+                            (0 if isinstance(x, list) and x and x[0] == "some" else None) for x in m[1][1]]
+            if got_shape != shape or got_flat != flat:
+                R.extra["spec_mismatch"] = R.extra.get("spec_mismatch", 0) + 1
+                if R.extra["spec_mismatch"] <= 5:
+                    print(f"SPEC-MISMATCH C16_ObjArray op={json.dumps(t['op'][:3])} bs={bs}: torch {shape} {flat[:12]} spec {got_shape} {str(got_flat)[:80]}")
+            continue
         if kind == "denote":
             got = m[1] if isinstance(m, list) and m and m[0] == "some" else None
             got = [x[1] if isinstance(x, list) else None for x in got] if got is not None else None
